@@ -223,27 +223,40 @@ def close2 (rec : List (List Item) → List Bytes) (first : Option Item) : List 
     | some f => [.fact f (itemReq f ++ rec (ms.map dropLead))]
     | none => ms
 
+/-- Does the node continue the current run of round 2? -/
+def run2Cond (first : Option Item) (nd : Node) : Bool :=
+  match first with
+  | some f => leadingItem nd == some f && itemFactorable f
+  | none => false
+
 /-- Round 2: runs of adjacent nodes with the same leading character class (or fixed repeat of one). -/
 def round2 (rec : List (List Item) → List Bytes) : Option Item → List Node → List Node → List Node
   | first, members, [] => close2 rec first members
   | first, members, nd :: rest =>
-    if (match first with | some f => leadingItem nd == some f && itemFactorable f | none => false) then
+    if run2Cond first nd then
       round2 rec first (members ++ [nd]) rest
     else close2 rec first members ++ round2 rec (leadingItem nd) [nd] rest
 
 /-- Round 3: runs of two or more single characters / classes become one class. -/
 def round3 : List Node → List Node
-  | a :: b :: rest =>
-    if nodeIsCC a && nodeIsCC b then round3 (.cls (unionChars (nodeChars a) (nodeChars b)) :: rest) else a :: round3 (b :: rest)
-  | l => l
-termination_by l => l.length
+  | [] => []
+  | a :: rest =>
+    match round3 rest with
+    | b :: r' =>
+      if nodeIsCC a && nodeIsCC b then .cls (unionChars (nodeChars a) (nodeChars b)) :: r' else a :: b :: r'
+    | [] => [a]
+
+def isEmptyBr : Node → Bool
+  | .br [] => true
+  | _ => false
 
 /-- Round 4: runs of empty matches become one. -/
 def round4 : List Node → List Node
-  | .br [] :: .br [] :: rest => round4 (.br [] :: rest)
-  | a :: rest => a :: round4 rest
   | [] => []
-termination_by l => l.length
+  | a :: rest =>
+    match round4 rest with
+    | b :: r' => if isEmptyBr a && isEmptyBr b then b :: r' else a :: b :: r'
+    | [] => [a]
 
 /-- The four rounds of `parser.factor`. -/
 def factorNodesWith (rec : List (List Item) → List Bytes) (bs : List (List Item)) : List Node :=
@@ -275,11 +288,17 @@ def branchIsCC : List Item → Bool
 /-- `swapVerticalBar` + `mergeCharClass`: while the alternation is being read, a branch that is a
     single character or class is merged into the branch before it if that is one too (the same
     literal twice stays that literal; anything else becomes a class; `.` absorbs). -/
+def isSingleLit : List Item → Bool
+  | [.lit _ _] => true
+  | _ => false
+
+def classBranch : Option (List Nat) → List Item
+  | some k => [.other (some (0, 0 :: k)) []]
+  | none => [.other (some (0, [1])) []]
+
 def mergeCC (a b : List Item) : List Item :=
-  if a == b && (match a with | [.lit _ _] => true | _ => false) then a
-  else match unionChars (nodeChars (.br a)) (nodeChars (.br b)) with
-    | some k => [.other (some (0, 0 :: k)) []]
-    | none => [.other (some (0, [1])) []]
+  if a == b && isSingleLit a then a
+  else classBranch (unionChars (nodeChars (.br a)) (nodeChars (.br b)))
 
 def prepass : List (List Item) → List (List Item) → List (List Item)
   | acc, [] => acc.reverse
